@@ -118,6 +118,27 @@ def sid_tables(spec):
     return templates, to_x, kp, key_types, leaf_keys, narrowing
 
 
+def variant_for(spec, pc):
+    """The specification as a path configuration with its own vocabulary sees it (pc: overrides dict)."""
+    v = copy.deepcopy(spec)
+    if isinstance(pc, dict):
+        if "projects" in pc:
+            v["projects"] = dict(pc["projects"])
+        if "state_values" in pc:
+            v["state"]["values"] = dict(pc["state_values"])
+            v["state"]["default"] = pc.get("state_default", list(pc["state_values"].values())[0])
+        if "prod" in pc:
+            v["prod"] = pc["prod"]
+        for b in v["basetypes"]:
+            if b["name"] in pc.get("folders", {}):
+                b["folder"] = pc["folders"][b["name"]]
+    return v
+
+
+def root_of(pc):
+    return pc["root"] if isinstance(pc, dict) else pc
+
+
 def path_tables(spec):
     """-> (path_templates with '{@root}', path_mapping, path_defaults, fs key_patterns updates)"""
     P, T, L = spec["key_project"], spec["key_type"], spec["leaf_key"]
@@ -167,11 +188,11 @@ def render(spec, dst):
     names = list(spec["path_configs"])
     skey = spec["state"]["key"]
     fs = ["from spil_sid_conf import key_patterns", "from pathlib import Path",
-          "project_root_path = Path(__file__).parent / 'data' / 'testing' / 'SPIL_PROJECTS' / %r / 'PROJECTS'" % spec["path_configs"][names[0]],
+          "project_root_path = Path(__file__).parent / 'data' / 'testing' / 'SPIL_PROJECTS' / %r / 'PROJECTS'" % root_of(spec["path_configs"][names[0]]),
           "path_templates = {"] + ["    %r: %r," % (k, v) for k, v in ptemplates.items()] + ["}",
           "path_templates = {k: v.replace('{@root}', project_root_path.as_posix()) for k, v in path_templates.items()}",
           "path_defaults = %r" % defaults, "sidkeys_to_extrakeys = {}", "extrakeys_to_sidkeys = {}", "path_mapping = %r" % mapping,
-          "search_path_mapping = {}", "key_patterns = key_patterns.copy()",
+          "search_path_mapping = {}", "key_patterns = {k: dict(v) for k, v in key_patterns.items()}",
           "key_patterns['__'].update({%r: %r})" % ("{%s}" % skey, "{%s:%s}" % (skey, closed(list(spec["state"]["values"].values())))),
           "key_patterns[''].update({%r: %r})" % ("{%s}" % P, "{%s:%s}" % (P, closed(list(spec["projects"].values()))))]
     for b in spec["basetypes"]:
@@ -181,9 +202,26 @@ def render(spec, dst):
     for n in names[1:]:
         mod = "spil_fs_%s_conf" % n
         path_configs[n] = mod
+        pc = spec["path_configs"][n]
+        if isinstance(pc, dict) and len(pc) > 1:
+            # a path configuration with its own folder vocabulary: a complete module of its own
+            vs = variant_for(spec, pc)
+            vt, vm, vd = path_tables(vs)
+            lines = ["from spil_sid_conf import key_patterns", "from pathlib import Path",
+                     "project_root_path = Path(__file__).parent / 'data' / 'testing' / 'SPIL_PROJECTS' / %r / 'PROJECTS'" % root_of(pc),
+                     "path_templates = {"] + ["    %r: %r," % (k, v) for k, v in vt.items()] + ["}",
+                     "path_templates = {k: v.replace('{@root}', project_root_path.as_posix()) for k, v in path_templates.items()}",
+                     "path_defaults = %r" % vd, "sidkeys_to_extrakeys = {}", "extrakeys_to_sidkeys = {}", "path_mapping = %r" % vm,
+                     "search_path_mapping = {}", "key_patterns = {k: dict(v) for k, v in key_patterns.items()}",
+                     "key_patterns['__'].update({%r: %r})" % ("{%s}" % skey, "{%s:%s}" % (skey, closed(list(vs["state"]["values"].values())))),
+                     "key_patterns[''].update({%r: %r})" % ("{%s}" % P, "{%s:%s}" % (P, closed(list(vs["projects"].values()))))]
+            for b in vs["basetypes"]:
+                lines.append("key_patterns[''].update({%r: %r})" % ("{%s:%s}" % (T, b["folder"]), "{%s:(%s%s)}" % (T, b["folder"], SEARCH)))
+            _w(dst, mod + ".py", "\n".join(lines) + "\n")
+            continue
         _w(dst, mod + ".py", "\n".join([
             "from spil_fs_conf import *  # noqa", "from pathlib import Path",
-            "other_root_path = Path(__file__).parent / 'data' / 'testing' / 'SPIL_PROJECTS' / %r / 'PROJECTS'" % spec["path_configs"][n],
+            "other_root_path = Path(__file__).parent / 'data' / 'testing' / 'SPIL_PROJECTS' / %r / 'PROJECTS'" % root_of(spec["path_configs"][n]),
             "path_templates = path_templates.copy()  # noqa",
             "path_templates = {k: v.replace(project_root_path.as_posix(), other_root_path.as_posix()) for k, v in path_templates.items()}  # noqa"]) + "\n")
     sources = routing(spec)
@@ -362,8 +400,13 @@ def op_third_basetype(s):
 
 
 def op_third_path_config(s):
+    """A third path configuration with its own folder vocabulary (project, type and state folders named differently)."""
     s = copy.deepcopy(s)
-    s["path_configs"] = dict(s["path_configs"], archive="ARCHIVE")
+    s["path_configs"] = dict(s["path_configs"], archive={
+        "root": "ARCHIVE", "prod": "STORE",
+        "projects": {k: "arch_" + v.lower() for k, v in s["projects"].items()},
+        "state_values": {k: "st_" + k.upper() for k in s["state"]["values"]},
+        "folders": {b["name"]: "LIB_" + b["folder"][:3] for b in s["basetypes"]}})
     return s
 
 
@@ -428,7 +471,13 @@ def validate(spec):
             pa, pb = parse_template(full[a]), parse_template(full[b2])
             if not any(_disjoint(x[1], y[1]) for x, y in zip(pa, pb)):
                 errs.append(f"{a} and {b2} share a key set and are not mutually exclusive")
-    # path templates use exactly the keys of the sid template; mappings one-to-one
+    # path templates use exactly the keys of the sid template; mappings one-to-one (in every path configuration)
+    for n, pc in spec["path_configs"].items():
+        if isinstance(pc, dict) and len(pc) > 1:
+            _, vm, _ = path_tables(variant_for(spec, pc))
+            for k, m in vm.items():
+                if len(set(m.values())) != len(m):
+                    errs.append(f"value mapping of {k} in path configuration {n} is not one-to-one")
     pt, mapping, defaults = path_tables(spec)
     for t, v in pt.items():
         if t not in full:
